@@ -140,6 +140,10 @@ def make_objects(spec, cfg_dt_src):
             pgs = [None, None, None]
             pgs[ax] = 1
             pol = {"fixed_E_polarization_vector": tuple(s["pol"])} if s.get("pol") is not None else {"fixed_H_polarization_vector": tuple(s["hpol"])}
+            if "az" in s:
+                pol["azimuth_angle"] = float(s["az"])
+            if "el" in s:
+                pol["elevation_angle"] = float(s["el"])
             if s["kind"] == "plane":
                 o = fdtdx.UniformPlaneSource(partial_grid_shape=tuple(pgs), direction=s.get("dir", "+"), **pol, **common)
             else:
